@@ -5,6 +5,10 @@ package main
 import (
 	"errors"
 	"fmt"
+	"io"
+	"net"
+	"os"
+	"syscall"
 	"time"
 
 	stun "github.com/pion/stun/v3"
@@ -70,6 +74,8 @@ func (e cliEv) String() string {
 		return "garbage(" + []string{"7 bytes", "bad cookie", "1025 bytes (truncated by the reader)", "attribute overrun", "valid header, body cut short"}[e.Arg] + ")"
 	case "failagent":
 		return "failagent(" + []string{"injected error", "ErrTransactionExists"}[e.Arg] + ")"
+	case "readerr":
+		return "readerr(" + []string{"generic", "net.ErrClosed", "io.EOF", "ECONNREFUSED", "deadline exceeded"}[e.Arg] + ")"
 	case "setrto":
 		return fmt.Sprintf("setrto(%dms)", e.Arg)
 	}
@@ -84,6 +90,7 @@ type cliScenario struct {
 	Sequential bool      `json:"sequential,omitempty"` // the driver waits for quiescence after every event
 	Epilogue   string    `json:"epilogue,omitempty"`   // "drain+close", "close", ""
 	Probe      bool      `json:"probe,omitempty"`      // after the threads: Start(D),Start(E),resp(E),resp(D) before the epilogue
+	TwoClients bool      `json:"two_clients,omitempty"` // a second client with its own connection/collector shares the package pools
 	DupIDs     bool      `json:"dup_ids,omitempty"`    // scenario starts one id several times concurrently
 	Prefix     []int     `json:"prefix,omitempty"`
 	Pre        int       `json:"pre,omitempty"` // preemption bound used (for replay bookkeeping)
@@ -185,6 +192,14 @@ type cliWorld struct {
 	rtoNow           time.Duration
 	endPos           int
 	agentStartFailed bool
+	// second client (shares the package-level pools; it has its own clock, so that the first client's time only
+	// moves with its own collector)
+	clock2  *vClock
+	client2 *stun.Client
+	conn2   *vConn
+	coll2   *vCollector
+	agent2  *vAgent
+	raw2    map[int][]byte // slot -> request bytes of client 2
 }
 
 func (w *cliWorld) rec(r obsRec) int {
@@ -202,6 +217,7 @@ func (c *vClock) Now() time.Time { return c.now }
 
 type vConn struct {
 	w         *cliWorld
+	readErrs  map[int]error // inbox position marker -> error (an inbox item of length 0 with an entry here is a read error)
 	inbox     [][]byte
 	closed    bool
 	closeN    int
@@ -216,6 +232,9 @@ func (c *vConn) Read(p []byte) (int, error) {
 	if len(c.inbox) > 0 {
 		d := c.inbox[0]
 		c.inbox = c.inbox[1:]
+		if len(d) == 2 && d[0] == 0xEE { // a scripted read error
+			return 0, cliReadErr(int(d[1]))
+		}
 		return copy(p, d), nil // like UDP: the datagram is truncated to the buffer
 	}
 	if c.closed {
@@ -238,7 +257,11 @@ func (c *vConn) Write(p []byte) (int, error) {
 		c.failNext = false
 		err = errInjectedWrite
 	}
-	r := obsRec{Kind: "write", Inst: -1, Err: err, Data: append([]byte(nil), p...)}
+	kind := "write"
+	if c == c.w.conn2 {
+		kind = "write2"
+	}
+	r := obsRec{Kind: kind, Inst: -1, Err: err, Data: append([]byte(nil), p...)}
 	if len(p) >= 20 {
 		copy(r.ID[:], p[8:20])
 	}
@@ -355,6 +378,21 @@ func (a *vAgent) nextDeadline() (time.Time, bool) {
 		}
 	}
 	return best, ok
+}
+
+// cliReadErr: the errors a connection's Read may report without being closed.
+func cliReadErr(kind int) error {
+	switch kind {
+	case 1:
+		return net.ErrClosed
+	case 2:
+		return io.EOF
+	case 3:
+		return &net.OpError{Op: "read", Net: "udp", Err: syscall.ECONNREFUSED} // not Temporary(), not Timeout()
+	case 4:
+		return os.ErrDeadlineExceeded
+	}
+	return errors.New("vconn: injected read error")
 }
 
 // ---- ids and messages ----
@@ -625,6 +663,28 @@ func (w *cliWorld) do(ev cliEv, quiesce bool) {
 		}
 		w.rec(obsRec{Kind: "tick-begin", Inst: -1})
 		w.coll.tick(t)
+	case "start2":
+		m := cliRequest(ev.I, 3000)
+		w.raw2[ev.I] = append([]byte(nil), m.Raw...)
+		sched.Point("invoke", nil)
+		_ = w.client2.Start(m, func(stun.Event) {})
+	case "tick2":
+		t := w.clock2.now
+		if d, ok := w.agent2.nextDeadline(); ok {
+			t = d.Add(time.Nanosecond)
+		}
+		sched.Point("tick2", nil)
+		if !w.coll2.closed && w.coll2.f != nil {
+			if t.After(w.clock2.now) {
+				w.clock2.now = t
+			}
+			w.coll2.inFlight++
+			w.coll2.f(w.clock2.now)
+			w.coll2.inFlight--
+		}
+	case "readerr":
+		sched.Point("net", nil)
+		w.conn.inbox = append(w.conn.inbox, []byte{0xEE, byte(ev.Arg)})
 	case "failwrite":
 		w.conn.failNext = true
 	case "failagent":
@@ -692,6 +752,18 @@ func runScenario(sc cliScenario) (*sched.Result, *cliWorld) {
 			w.fatal = "NewClient: " + err.Error()
 			return
 		}
+		if sc.TwoClients {
+			w.conn2 = &vConn{w: w, written: map[[12]byte]bool{}}
+			w.coll2 = &vCollector{w: w}
+			w.agent2 = &vAgent{w: w, a: stun.NewAgent(nil), deadlines: map[[12]byte]time.Time{}}
+			w.raw2 = map[int][]byte{}
+			w.clock2 = &vClock{now: cliT0}
+			w.client2, err = stun.NewClient(w.conn2, stun.WithAgent(w.agent2), stun.WithClock(w.clock2), stun.WithCollector(w.coll2))
+			if err != nil {
+				w.fatal = "NewClient(2): " + err.Error()
+				return
+			}
+		}
 		for _, ev := range sc.Setup {
 			w.do(ev, true)
 		}
@@ -742,6 +814,10 @@ func runScenario(sc cliScenario) (*sched.Result, *cliWorld) {
 			if w.closeRets == 0 {
 				w.do(cliEv{K: "close"}, true)
 			}
+		}
+		if w.client2 != nil {
+			_ = w.client2.Close()
+			sched.Quiesce()
 		}
 		w.endPos = len(w.log)
 		// after the end: nothing may reach a handler or the wire any more
